@@ -179,7 +179,10 @@ CLAIMS = {
     "C04": (
         "Theorems C04_once (at most one completed generation per (context, factory) in every reachable world, by the invariant "
         "KInv), C04_facwf, C04_async_via_sync, C04_generates_all_types(_async), C04_not_inherited, C04_child_has_factory, "
-        "C04_distinct_objects, C04_race_waits, C04_scoped. " + KERNEL_NOTE,
+        "C04_distinct_objects, C04_race_waits, C04_scoped. A suspended lookup given up by its caller (`cancelGet`: the lookup "
+        "running the factory - the generation is abandoned, the waiting lookups look again - or one that only waited): "
+        "C04_cancel_no_lost_waiter (every waiter has returned or is again runner/waiter of a generation in flight), _removes, "
+        "_answer, _waiter_only, _keeps_existing, _fac, _log_sound(_gated), _scoped. " + KERNEL_NOTE,
         "Written for the behaviour after the fix: commits for D1, D2, D3. Lookups still suspended when their context is closed "
         "are outside the statement and only compared with the model.",
         "8/C04",
@@ -188,8 +191,9 @@ CLAIMS = {
         "Theorems C12_enter, C12_exit, C12_current, C12_noninterference, C12_token_stable, C12_open_stable, C12_restore (over "
         "any history of other tasks' operations), C12_nested, C12_parent_default, C12_inherit. " + KERNEL_NOTE,
         "Partial: task-locality is contextvars' semantics; in the model it holds by construction, so the weight is on the "
-        "correspondence (several worker tasks sampling current_context()). Leaving by cancellation is not generated. The "
-        "component-context clause is checked by the start-up correspondence (C05).",
+        "correspondence (several worker tasks sampling current_context(); blocks left by cancellation, or cancelled while "
+        "their teardown runs - twins C12_exit_mid, _restore_mid, _nested_mid, _current_in_teardown_disciplined_mid). The "
+        "component-context clause is checked by the start-up part of the check (one case in seven).",
         "8/C12",
     ),
     "C13": (
